@@ -539,3 +539,13 @@ Theorem C03_integral_scale_setter_accepts_iff :
        1 / 100000000 + 1 / 1000 * Rabs target < Rabs (calc len - target)).
 Proof. exact integral_scale_setter_accepts_iff. Qed.
 Print Assumptions C03_integral_scale_setter_accepts_iff.
+
+(* the derivation theorems (C03_derive_canonical, C03_four_definitions_agree) assume NO positivity of the correlation: the
+   user classes of the correspondence built from ANY normalised correlation c are consistent for every subset of provided
+   methods, in particular the hole-effect shapes sin(h)/h and exp(-a h) cos(h); the wave shape does take negative values *)
+Theorem C03_consistent_any_shape :
+  forall ora (c : R -> R) var nug lr d,
+    consistent c var nug lr d (user_from_cor (OR ora) c var nug lr) /\
+    cor_wave (OR ora) (3 * PI / 2) < 0.
+Proof. intros. split; [apply user_from_cor_consistent | apply wave_negative_lobe]. Qed.
+Print Assumptions C03_consistent_any_shape.
